@@ -131,7 +131,10 @@ fn main() {
     let mut run = Run::new(&a.out);
     quiet_panics();
     let deep = a.thorough();
-    let full: u64 = (1u64 << 52) - 1;
+    // the deck of this build (36 cards under --features shortdeck); values are built inside it,
+    // generated STRINGS use all 52 card names in both builds
+    let full: u64 = u64::from(Hand::from(u64::MAX));
+    let short = is_shortdeck();
 
     // ------------------------------------------------------------ Unicode tables seen by the parsers
     let ws25: Vec<char> = (0u32..=0x10FFFF).filter_map(char::from_u32).filter(|c| c.is_whitespace()).collect();
@@ -149,6 +152,7 @@ fn main() {
         out.join(" ")
     };
     for cp in 0u32..=0x10FFFF {
+        if short { break; } // the tables do not depend on the deck: compared in the std stream only
         let pick = deep || cp < 0x3100 || specials.contains(&cp) || cp % 61 == 0 || (0xfa00..0xfc00).contains(&cp);
         if !pick { continue; }
         if let Some(c) = char::from_u32(cp) {
@@ -199,6 +203,7 @@ fn main() {
     {
         let mut acts = vec![Action::Fold, Action::Check];
         for x in i16::MIN..=i16::MAX {
+            if short && x.unsigned_abs() > 1500 && x.unsigned_abs() < 32700 { continue; }
             acts.push(Action::Call(x)); acts.push(Action::Raise(x)); acts.push(Action::Shove(x)); acts.push(Action::Blind(x));
         }
         acts.push(Action::Draw(Hand::from(0u64)));
@@ -225,6 +230,7 @@ fn main() {
         for i in 0..52u64 {
             for j in (i + 1)..52 {
                 let h = 1u64 << i | 1 << j;
+                if h & !full != 0 { continue; }
                 let hole = Hole::from(Hand::from(h));
                 // Hole has no print op of its own in the model: its Display is the hand's
                 let p = catch(move || hole.to_string());
@@ -294,6 +300,31 @@ fn main() {
         corner.push(format!("DEAL{w}As{w}Ks"));
     }
     for s in &corner { parse_all(s, &mut run); run.count("input:corner-case"); }
+
+    // ------------------------------------------------------------ overlaps and duplicates on every one of the 52 card names
+    {
+        let name = |c: u64| Card::from(c as u8).to_string();
+        let mut made: Vec<String> = vec![];
+        for x in 0..52u64 {
+            for nb in [3usize, 4, 5] {
+                let others = rng.cards(nb + 1, ((1u64 << 52) - 1) & !(1 << x));
+                let o: Vec<u64> = (0..52).filter(|c| others >> c & 1 == 1).collect();
+                let board_with_x = |pos: usize| -> String {
+                    let mut b: Vec<String> = o[1..nb].iter().map(|c| name(*c)).collect();
+                    b.insert(pos.min(b.len()), name(x));
+                    b.concat()
+                };
+                made.push(format!("{}{} ~ {}", name(x), name(o[0]), board_with_x(0)));       // shared card first in both
+                made.push(format!("{}{} ~ {}", name(o[0]), name(x), board_with_x(nb)));      // shared card last in both
+                made.push(format!("{}{} ~ {}", name(x), name(x), board_with_x(1)));          // pocket pair of one card
+                made.push(format!("{} {} ~ {}", name(x), name(o[0]), o[1..=nb].iter().map(|c| name(*c)).collect::<Vec<_>>().join(" "))); // valid, spaced
+                made.push(format!("{}{} ~ {}{}", name(o[0]), name(o[1]), name(x), board_with_x(0))); // card twice on the board
+            }
+            made.push(format!("{}{}", name(x), name(x)));
+            made.push(format!("DEAL {}{}", name(x), name(x)));
+        }
+        for s in &made { parse_all(s, &mut run); run.count("input:overlap-or-duplicate(all 52 card names)"); }
+    }
 
     // ------------------------------------------------------------ grammar-guided mutations → every parser
     let alphabet: Vec<char> = {
